@@ -36,6 +36,9 @@ Probe(kind, decls, setup, stmts, ok, note) ==
     [kind |-> kind, decls |-> ClassDecls \o decls, setup |-> setup, stmts |-> stmts, writes |-> FALSE,
      expect |-> Verdict(ok), note |-> note]
 
+RECURSIVE TyList(_, _)
+TyList(sig, j) == IF j > Len(sig) THEN "" ELSE sig[j].ty \o (IF j < Len(sig) THEN ", " ELSE "") \o TyList(sig, j + 1)
+FunTy(sig) == "(" \o TyList(sig, 1) \o ") -> Int"
 \* --- function call --------------------------------------------------------------------
 IdFun(ret) == Fun("idr", <<Param("x", ret, Absent)>>, ret, <<>>, <<Expr(Var("x"))>>)
 UseOf(callE, ret, use) ==
@@ -47,6 +50,12 @@ CallProbes ==
             ArgSetup(args, form), UseOf(Call("f", ArgEs(args, form)), "Int", use), CallOK(sig, args),
             [sig |-> sig, args |-> args, use |-> use, form |-> form])
       : args \in ArgVariants(sig), use \in {"stmt", "init", "arg"}, form \in {"lit", "var", "ife", "neg", "grp"} } : sig \in Sigs }
+  \cup  \* the same call THROUGH a parameter of function type (the callee is a value: an anonymous function handed in by the caller)
+    UNION { { Probe("call-via-parameter",
+                    <<Fun("run", <<Param("g", FunTy(sig), Absent)>>, "Int", <<>>, ArgSetup(args, form) \o <<Expr(Call("g", ArgEs(args, form)))>>)>>,
+                    <<>>, <<Expr(Call("run", <<Lam(ParamsOf(sig), IntL(7))>>))>>, CallOK(sig, args),
+                    [sig |-> sig, args |-> args, use |-> "via-parameter", form |-> form])
+      : args \in ArgVariants(sig), form \in {"lit", "var", "ife", "neg", "grp"} } : sig \in {sg \in Sigs : Len(sg) > 0 /\ \A j \in 1..Len(sg) : ~sg[j].d} }
   \cup  \* the result used at another type
     { Probe("call-result", <<Fun("f", <<>>, rt, <<>>, <<Expr(Lit(rt))>>)>>, <<>>, <<Def("r", TRUE, u, Call("f", <<>>))>>,
             InitOK(u, rt), [ret |-> rt, used_as |-> u])
